@@ -674,4 +674,85 @@ theorem neuTrip_entry (P : Pb) (nf r c : Nat) :
         have h4 : n ≠ r := fun e => h2 e.symm
         cases hu : P.isNeu n <;> simp [h1, h3, h4, entryOf_cons, entryOf_nil]
 
+/-! ### interface coupling -/
+
+theorem sumTo_comm (n m : Nat) (g : Nat → Nat → Rat) :
+    sumTo n (fun i => sumTo m (fun j => g i j)) = sumTo m (fun j => sumTo n (fun i => g i j)) := by
+  induction n with
+  | zero => simp [sumTo_eq_zero]
+  | succ n ih => simp only [sumTo_succ, ih, sumTo_add]
+
+theorem sumTo_mul_right (n : Nat) (g : Nat → Rat) (k : Rat) :
+    sumTo n (fun i => g i * k) = sumTo n g * k := by
+  induction n with
+  | zero => simp
+  | succ n ih => simp only [sumTo_succ, ih]; ring
+
+theorem absR_nonneg (x : Rat) : 0 ≤ absR x := by
+  unfold absR; split <;> linarith
+
+theorem absR_mul_sgnR (x : Rat) : absR x * ((sgnR x : Int) : Rat) = x := by
+  unfold absR sgnR
+  by_cases h1 : 0 < x
+  · have : ¬ x < 0 := not_lt.mpr h1.le
+    simp [h1, this]
+  · by_cases h2 : x < 0
+    · simp [h1, h2]
+    · have : x = 0 := le_antisymm (not_lt.mp h1) (not_lt.mp h2)
+      simp [this]
+
+theorem cplFlag_iff (C : Cp) (m : Nat) : cplFlag C m = true ↔ 0 < C.lam m := by
+  unfold cplFlag sgnR
+  by_cases h1 : 0 < C.lam m
+  · simp [h1]
+  · by_cases h2 : C.lam m < 0
+    · simp [h1, h2]
+    · simp [h1, h2]
+
+/-- total weight of a face in the trace operator: the number of its cells -/
+def faceWeight (T : Topo) (f : Nat) : Rat := sumOver T (fun i => if i.face = f then absR i.sgn else 0)
+
+theorem sum_traceW (T : Topo) (f nc : Nat) (hc : ∀ i ∈ T, i.cell < nc) :
+    sumTo nc (fun c => traceW T f c) = faceWeight T f := by
+  unfold traceW faceWeight
+  rw [sumTo_sumOver_comm]
+  apply sumOver_congr
+  intro i hi
+  by_cases h : i.face = f
+  · have e : ∀ c, (if i.face = f ∧ i.cell = c then absR i.sgn else 0) = if i.cell = c then absR i.sgn else 0 := by
+      intro c; simp [h]
+    rw [sumTo_congr nc _ _ (fun c _ => e c), sumTo_ite_eq i.cell nc (fun _ => absR i.sgn), if_pos (hc i hi), if_pos h]
+  · rw [if_neg h]
+    exact sumTo_eq_zero _ _ (fun c _ => by simp [h])
+
+theorem traceVal_eq_matvec (T : Topo) (c : Nat → Rat) (f nc : Nat) (hc : ∀ i ∈ T, i.cell < nc) :
+    sumTo nc (fun k => traceW T f k * c k) = traceVal T c f := by
+  unfold traceW traceVal
+  have e : ∀ k, sumOver T (fun i => if i.face = f ∧ i.cell = k then absR i.sgn else 0) * c k
+      = sumOver T (fun i => if i.cell = k then (if i.face = f then absR i.sgn * c k else 0) else 0) := by
+    intro k
+    rw [← sumOver_mul_right]
+    apply sumOver_congr
+    intro i _
+    by_cases h1 : i.face = f <;> by_cases h2 : i.cell = k <;> simp [h1, h2]
+  rw [sumTo_congr nc _ _ (fun k _ => e k), sumTo_sumOver_comm]
+  apply sumOver_congr
+  intro i hi
+  rw [sumTo_ite_eq i.cell nc (fun k => if i.face = f then absR i.sgn * c k else 0), if_pos (hc i hi)]
+
+theorem faceWeight_eq_cnt (T : Topo) (f : Nat) (hu : ∀ i ∈ T, i.sgn = 1 ∨ i.sgn = -1) :
+    faceWeight T f = (cntPos T f : Rat) + (cntNeg T f : Rat) := by
+  induction T with
+  | nil => simp [faceWeight, cntPos, cntNeg]
+  | cons j T ih =>
+    have ih' := ih (fun i hi => hu i (List.mem_cons_of_mem _ hi))
+    unfold faceWeight at ih' ⊢
+    rw [sumOver_cons, ih', cntPos_cons, cntNeg_cons]
+    by_cases hf : j.face = f
+    · have e : ¬ ((1 : Rat) < 0) := by norm_num
+      rcases hu j List.mem_cons_self with h1 | h1
+      · simp [hf, h1, e, absR]; ring
+      · simp [hf, h1, e, absR]; ring
+    · simp [hf]
+
 end PorepyVerif.C17
